@@ -570,6 +570,9 @@ func checkC19(c *core.Ctx) {
 		// numbers written as strings, negative and zero: back to the default, whatever was set before
 		{"pull", `{"completion":{"maxResults":"-1"},"formatting":{"indentSize":"-2","minAlignmentColumn":"-3"}}`},
 		{"pull", `{"completion":{"maxResults":"0"},"limits":{"maxIncludeDepth":"0"}}`},
+		// the same in the dotted key form, bare and inside the hledger wrapper
+		{"pull", `{"formatting.indentSize":0,"completion.maxResults":-3,"limits.maxIncludeDepth":0}`},
+		{"pull", `{"hledger":{"formatting.indentSize":"-3","completion.maxResults":"0"}}`},
 	}
 	depth := 3
 	if c.Thorough() {
